@@ -459,7 +459,7 @@ DownloadMain::do_peer_exchange() {
 
   // If no peers were added or removed, the initial message is still correct and
   // the delta message stays emptied. Otherwise generate the appropriate messages.
-  if (!added.empty() || !m_ut_pex_list.empty()) {
+  if (!added.empty() || !removed.empty()) {
     m_ut_pex_delta = ProtocolExtension::generate_ut_pex_message(added, removed);
 
     m_ut_pex_initial.clear();
